@@ -3,7 +3,7 @@ it is written under; creating constructors and the header write what the getters
 import re
 
 from ..extract import AnalysisBroken
-from ..sem import Sem, term, unwrap, real_args
+from ..sem import Sem, Flow, term, unwrap, real_args
 from .r_hdr import str_arg
 
 ATTR = ('setAttr', 'getAttr', 'hasAttr', 'removeAttr')
@@ -453,3 +453,46 @@ def _facts(prog, f, c):
     if s is None:
         s = _SEMC[id(prog)] = Sem(prog)
     return s.facts_at(f, c.id)
+
+
+# front-end setters that normalise a text before storing it; confirmed by reading, one line of reason each
+SETTER_NORMALISERS = {
+    ('nix::Property::unit', 'deblankString'): 'a property unit is stored without blanks (documented behaviour of Property::unit)',
+}
+
+
+def run_setter_verbatim(prog, rep, classes=('nix::Property',), floor=2):
+    """a front-end setter hands the caller's value itself to the backend setter of the same name"""
+    rule = rep.rule('R-SETVERB', 'front-end setters of %s pass the value they are given to the backend setter of the same name verbatim (or through the one tabled normaliser)' % ', '.join(classes), floor=floor)
+    sem = Sem(prog)
+    n = 0
+    for f in sorted(prog.funcs.values(), key=lambda f: (f.file, f.line)):
+        if f.body is None or f.cls not in classes or not f.params:
+            continue
+        fl = None
+        for c in f.calls():
+            if c.callee.get('name') != f.name or not (c.callee.get('cls') or '').startswith('nix::base::I'):
+                continue
+            for j, a in enumerate(real_args(c)):
+                if a is None or unwrap(a).k == 'defarg':
+                    continue
+                fl = fl or Flow(sem, f)
+                org = fl.origins(unwrap(a))
+                calls = sorted(set(o[1] for o in org if o[0] == 'call'))
+                other = sorted(set(o[0] for o in org if o[0] not in ('call', 'param', 'const', 'lit')))
+                pnames = [o[1] for o in org if o[0] == 'param']
+                ptypes = [p['type'] for p in f.params if p['name'] in pnames]
+                if not pnames or not all(('std::string' in t or 'basic_string' in t or 'Variant' in t or t.replace('const ', '') in ('double', 'float')) for t in ptypes):
+                    continue        # built from other data, or an entity handle (identified by its id): other rules
+                n += 1
+                key = '%s%s|arg%d' % (f.q, f.sig, j)
+                bad = [x for x in calls if (f.q, x) not in SETTER_NORMALISERS]
+                if bad or other:
+                    rule.bad(key, rep.where(c), f.label(), 'the value handed to the backend is the parameter passed through %s: what is read back differs from what was assigned for some texts' % ', '.join(bad + other))
+                elif calls:
+                    rule.ok(key, rep.where(c), f.label(), 'tabled normaliser %s: %s' % (calls[0], SETTER_NORMALISERS[(f.q, calls[0])]))
+                else:
+                    rule.ok(key, rep.where(c), f.label(), 'verbatim')
+    if n < floor:
+        raise AnalysisBroken('R-SETVERB: only %d setter arguments found' % n)
+    return rule
